@@ -17,6 +17,7 @@ mod c19;
 mod c11;
 mod c08;
 mod c09;
+mod c10;
 
 fn main() {
     let args: Vec<String> = std::env::args().collect();
@@ -40,6 +41,7 @@ fn main() {
         "c11" => c11::main(rest),
         "c08" => c08::main(rest),
         "c09" => c09::main(rest),
+        "c10" => c10::main(rest),
         other => {
             eprintln!("unknown property {other}");
             std::process::exit(2);
